@@ -251,7 +251,7 @@ def replay_file(m, path):
     env = (d.get("replay") or {}).get("inputs") or d.get("model") or {}
     P = Prover(d["property"], "replay", "quick", 0)
     key = (d.get("replay") or {}).get("key")
-    rp = P._replay(sc, params, env, key, None)
+    rp = P._replay(sc, params, env, key, None, seed=(d.get("replay") or {}).get("seed", 0))
     print(json.dumps(dict(obligation=d["obligation"], scenario=d["scenario"], params=d.get("params"), result=rp), indent=1)[:6000])
     if rp.get("reproduced"):
         print("REPRODUCED on the real code: %s" % rp.get("detail"))
